@@ -28,6 +28,49 @@ type crashScenario struct {
 	setup   func(w *World, root string) (dir string, err error)          // returns the directory the command runs in
 	command func(w *World, dir string, extraEnv []string) gitenv.Result // the command under test
 	corrupt map[string]bool                                               // objects the set-up corrupted on purpose (hex)
+	skip    func() string                                                 // non-empty: why the scenario cannot run here
+}
+
+// otherFilesystem returns a directory on a filesystem other than dir's (hard links from it fail), or "".
+func otherFilesystem(dir string) string {
+	for _, cand := range []string{"/dev/shm", "/run/shm", "/tmp", "/var/tmp"} {
+		d, err := os.MkdirTemp(cand, "verif-c09-probe-")
+		if err != nil {
+			continue
+		}
+		src := filepath.Join(d, "probe")
+		os.WriteFile(src, []byte("x"), 0o644)
+		dst := filepath.Join(dir, fmt.Sprintf("probe-%d", os.Getpid()))
+		err = os.Link(src, dst)
+		os.Remove(dst)
+		os.RemoveAll(d)
+		if err != nil {
+			return cand
+		}
+	}
+	return ""
+}
+
+// makeReferenceClone clones the remote into refDir with all objects fetched, then makes a --shared
+// clone of it (objects/info/alternates -> the reference's lfs/objects is a reference store).
+func makeReferenceClone(w *World, root, refDir string) (string, error) {
+	tmpl := filepath.Join(root, "tmpl")
+	os.MkdirAll(filepath.Join(tmpl, "info"), 0o755)
+	os.WriteFile(filepath.Join(tmpl, "info", "attributes"), []byte("*.bin "+w.Attr+"\n"), 0o644)
+	cfg := []string{"-c", "lfs.url=" + w.Srv.LFSURL(repoName, ""), "-c", "lfs.transfer.maxretries=1", "-c", "lfs.transfer.maxretrydelay=0", "-c", "lfs.concurrenttransfers=1"}
+	args := append([]string{"clone", "-q", "--template=" + tmpl}, cfg...)
+	if r := w.Env.RunIn(root, skipSmudge, nil, 120*time.Second, "git", append(args, w.Remote, refDir)...); !r.OK() {
+		return "", fmt.Errorf("reference clone: %s", r.All())
+	}
+	if r := w.Env.RunIn(refDir, nil, nil, 120*time.Second, "git", "lfs", "fetch"); !r.OK() {
+		return "", fmt.Errorf("reference fetch: %s", r.All())
+	}
+	cloneB := filepath.Join(root, "cloneB")
+	args = append([]string{"clone", "-q", "--shared", "--no-checkout", "--template=" + tmpl}, cfg...) // the checkout itself would already link the objects (smudge --skip does)
+	if r := w.Env.RunIn(root, skipSmudge, nil, 120*time.Second, "git", append(args, refDir, cloneB)...); !r.OK() {
+		return "", fmt.Errorf("shared clone: %s", r.All())
+	}
+	return cloneB, nil
 }
 
 func bigContent(tag string, n int) []byte {
@@ -99,6 +142,36 @@ func crashScenarios() []crashScenario {
 			return makeCloneB(w, root)
 		}, command: func(w *World, dir string, ex []string) gitenv.Result {
 			return w.Env.RunIn(dir, ex, []byte(w.PointerText("o2")), 120*time.Second, "git-lfs", "smudge", "p2.bin")
+		}},
+		{name: "reference-link", setup: func(w *World, root string) (string, error) {
+			if err := publishThree(w); err != nil {
+				return "", err
+			}
+			return makeReferenceClone(w, root, filepath.Join(root, "reference"))
+		}, command: func(w *World, dir string, ex []string) gitenv.Result {
+			return w.Env.RunIn(dir, ex, nil, 120*time.Second, "git", "lfs", "fetch")
+		}},
+		{name: "reference-copy", skip: func() string {
+			if otherFilesystem(os.TempDir()) == "" && otherFilesystem("/verif") == "" {
+				return "no second filesystem to put the reference store on"
+			}
+			return ""
+		}, setup: func(w *World, root string) (string, error) {
+			if err := publishThree(w); err != nil {
+				return "", err
+			}
+			other := otherFilesystem(root)
+			if other == "" {
+				return "", fmt.Errorf("no second filesystem")
+			}
+			refBase, err := os.MkdirTemp(other, "verif-c09-ref-")
+			if err != nil {
+				return "", err
+			}
+			w.cleanup = append(w.cleanup, func() { os.RemoveAll(refBase) })
+			return makeReferenceClone(w, root, filepath.Join(refBase, "reference"))
+		}, command: func(w *World, dir string, ex []string) gitenv.Result {
+			return w.Env.RunIn(dir, ex, nil, 120*time.Second, "git", "lfs", "fetch")
 		}},
 		{name: "fsck-repair", setup: func(w *World, root string) (string, error) {
 			w.content["o1"] = bigContent("o1", 3000)
@@ -223,6 +296,12 @@ func init() {
 		pointsPer := map[string]int{}
 		pointNames := map[string]map[string]int{}
 		for si, sc := range crashScenarios() {
+			if sc.skip != nil {
+				if why := sc.skip(); why != "" {
+					c.Assume("scenario " + sc.name + " skipped: " + why)
+					continue
+				}
+			}
 			root := filepath.Join(c.Work, fmt.Sprintf("ref%d", si))
 			w, err := NewWorld(root, filepath.Dir(lfs), c.Seed)
 			if err != nil {
@@ -248,7 +327,7 @@ func init() {
 				}
 			}
 			if k < 2 {
-				c.Infra("scenario %s reached only %d crash points", sc.name, k)
+				c.Infra("scenario %s reached only %d crash points; output of the command: %s", sc.name, k, core.Tail(r.All(), 1500))
 			}
 			pointsPer[sc.name] = k
 			pointNames[sc.name] = names
@@ -347,10 +426,10 @@ func init() {
 		c.Set("evaluations", len(jobs))
 		c.Set("distinct_nontrivial", len(jobs))
 		c.Set("exhaustive", !c.Quick())
-		c.Set("rule", "cases = (scenario, ordinal of the reached crash point): scenarios git add of 3 files (one duplicate), lfs fetch / lfs pull / one-shot smudge with download in a fresh clone, fsck repair of 2 corrupt objects, prune; every reached point in the thorough tier, the first and last 12 plus a stride in the quick tier")
+		c.Set("rule", "cases = (scenario, ordinal of the reached crash point): scenarios git add of 3 files (one duplicate), lfs fetch / lfs pull / one-shot smudge with download in a fresh clone, lfs fetch in a --shared clone whose reference store is on the same filesystem (hard link) and on another one (copy), fsck repair of 2 corrupt objects, prune; every reached point in the thorough tier, the first and last 12 plus a stride in the quick tier")
 		for i := 0; i < len(jobs); i += len(jobs)/5 + 1 {
 			c.Sample(map[string]interface{}{"scenario": jobs[i].sc.name, "kill_at_point": jobs[i].k, "of": pointsPer[jobs[i].sc.name]})
 		}
-		c.Assume("crash = SIGKILL of the git-lfs process at a verif-tag crash point (tools.TempFile, every write burst of CopyWithCallback, RobustRename, clean's rename, LinkOrCopy / CopyFileContents, fsck's move, prune's unlink); power loss is out of scope; migrate import and clone from a reference store are not yet among the scenarios")
+		c.Assume("crash = SIGKILL of the git-lfs process at a verif-tag crash point (tools.TempFile, every write burst of CopyWithCallback, RobustRename, clean's rename, LinkOrCopy / CopyFileContents, fsck's move, prune's unlink); power loss is out of scope; migrate import is not yet among the scenarios")
 	}
 }
